@@ -210,6 +210,26 @@ func c01(c *Ctx) {
 			c.R.Check(flow.Default.Any(arg, func(v ssa.Value) bool { return hasSuffixCall(v, wantGetter) }), site(x)+" inherits", c.pos(x.Pos()), "inherits the observed resource's "+wantGetter[4:], "the inherited value is not the observed resource's "+wantGetter[4:])
 			for _, g := range calls(fc, genNameInv) {
 				c.R.Check(cfgx.ReachesInIteration(x, g) && !cfgx.ReachesInIteration(g, x), site(x)+" before-generate", c.pos(x.Pos()), "happens before GenerateName", "the observed name is applied after GenerateName")
+				// whenever the desired name was observed, the inherit is not optional:
+				// GenerateName is unreachable from the found edge of observed[name]
+				// without passing this SetName.
+				var foundE []cfgx.Edge
+				for _, b := range fc.Blocks {
+					for _, in := range b.Instrs {
+						if lk, ok := in.(*ssa.Lookup); ok && lk.X == obs && lk.CommaOk {
+							if okv := extractOf(lk, 1); okv != nil {
+								t, _ := cfgx.CondEdges(okv)
+								foundE = append(foundE, t...)
+							}
+						}
+					}
+				}
+				if len(foundE) == 0 {
+					c.R.Unknown(site(x)+" unconditional-on-found", c.pos(x.Pos()), "no `_, ok := observed[name]` test found")
+				} else {
+					bad, w := cfgx.ReachesAvoidingBlocks(foundE, g.Block(), map[*ssa.BasicBlock]bool{x.Block(): true}, cfgx.BackEdges(fc), c.posf())
+					c.R.Check(!bad, site(x)+" unconditional-on-found", c.pos(x.Pos()), "every path from `observed[name]` found to GenerateName passes the inherit", "an observed resource can reach GenerateName without inheriting its name (extra condition on the inherit): it would be renamed, i.e. duplicated and the old one leaked", w...)
+				}
 			}
 		}
 		if found < 2 {
